@@ -203,11 +203,12 @@ pub fn new(parameters: &RawParameters, _ctx: &dyn Context) -> Result<Op, Error> 
     let polar = (t - FRAC_PI_2).abs() < EPS10;
     let north = polar && (t > 0.0);
     let equatorial = !polar && t < EPS10;
-    let oblique = !polar && !equatorial;
+    // The equatorial aspect is computed as the special case lat_0 = 0 of the oblique aspect
+    let oblique = !polar;
     match (polar, equatorial, north) {
         (true, _, true) => params.boolean.insert("north_polar"),
         (true, _, false) => params.boolean.insert("south_polar"),
-        (_, true, _) => params.boolean.insert("equatorial"),
+        (_, true, _) => params.boolean.insert("equatorial") && params.boolean.insert("oblique"),
         _ => params.boolean.insert("oblique"),
     };
 
@@ -230,8 +231,6 @@ pub fn new(parameters: &RawParameters, _ctx: &dyn Context) -> Result<Op, Error> 
     // D in the IOGP text
     let d = if oblique {
         a * (cos_phi_0 / (1.0 - es * sin_phi_0 * sin_phi_0).sqrt()) / (rq * xi_0.cos())
-    } else if equatorial {
-        rq.recip()
     } else {
         a
     };
